@@ -258,6 +258,51 @@ def extract(P):
     return out
 
 
+def canonical(g):
+    """the grammar with the names of plain helper functions replaced by a hash of their own content, so that renaming a helper
+    or hoisting a nested fn to module level changes nothing.  Productions of `impl Parse for X` keep their name (it is fixed
+    by the grammar type X); helpers are returned as a map hash -> (name, paths)"""
+    import hashlib
+    helpers = [n for n in g if not re.search(r'<impl syn::parse::Parse for [\w:]+>::parse$', n)]
+
+    def forms(n):
+        segs = n.split('::')
+        out = {n, '::'.join(segs[-2:])}
+        return sorted(out, key=len, reverse=True)
+    hashes = {}
+    pending = set(helpers)
+    for _round in range(8):
+        for n in sorted(pending):
+            # callee helpers mentioned in n's paths (other than itself) must be hashed first
+            txt = '\n'.join(g[n])
+            deps = [m for m in helpers if m != n and any(f_ in txt for f_ in forms(m))]
+            if any(m not in hashes for m in deps):
+                continue
+            for m in sorted(deps, key=len, reverse=True):
+                for f_ in forms(m):
+                    txt = txt.replace(f_, '#' + hashes[m])
+            for f_ in forms(n):
+                txt = txt.replace(f_, '#self')
+            hashes[n] = hashlib.sha1('\n'.join(sorted(txt.split('\n'))).encode()).hexdigest()[:10]
+            pending.discard(n)
+    for n in pending:       # mutual recursion among helpers: keep the name
+        hashes[n] = 'name:' + n
+
+    def rewrite(paths, own=None):
+        out = []
+        for p_ in paths:
+            for m in sorted(helpers, key=len, reverse=True):
+                for f_ in forms(m):
+                    p_ = p_.replace(f_, '#self' if m == own else '#' + hashes[m])
+            out.append(p_)
+        return sorted(out)
+    prods = {n: rewrite(g[n]) for n in g if n not in helpers}
+    helps = {}
+    for n in helpers:
+        helps.setdefault(hashes[n], []).append((n, rewrite(g[n], own=n)))
+    return prods, helps
+
+
 def run(ctx):
     P = ctx.prog
     g = extract(P)
@@ -269,6 +314,31 @@ def run(ctx):
         ctx.fail_closed(['C18'], 'R-GRAM', 'reference', 'spec/grammar_ref.json missing')
         return
     ref = json.load(open(REF))['productions']
+    cprods, chelps = canonical(g)
+    rprods, rhelps = canonical(ref)
+    g_names = {h: v[0][0] for h, v in chelps.items()}
+    # helper functions are compared as a set of contents (name and nesting are free); a helper whose content is in both is equal
+    same_helpers = set(chelps) & set(rhelps)
+    g = dict(g)
+    ref = dict(ref)
+    renamed = []
+    for h in sorted(same_helpers):
+        cn, rn = chelps[h][0][0], rhelps[h][0][0]
+        if cn != rn and cn in g and rn in ref and rn not in g and cn not in ref:
+            renamed.append((rn, cn))
+            ctx.ob(['C18'], 'R-GRAM', 'production|%s' % rn, True, 'helper %s has the content of the reference helper %s (renamed or hoisted)' % (cn, rn), '')
+            g.pop(cn)
+            ref.pop(rn)
+    if renamed:
+        # callers mention the helper by name: compare them in canonical form
+        for name in list(g):
+            if name in ref and name in cprods and name in rprods:
+                g[name], ref[name] = cprods[name], rprods[name]
+            elif name in ref:
+                hc = [h for h, v in chelps.items() if v[0][0] == name]
+                hr = [h for h, v in rhelps.items() if v[0][0] == name]
+                if hc and hr:
+                    g[name], ref[name] = chelps[hc[0]][0][1], rhelps[hr[0]][0][1]
     for name in sorted(set(g) | set(ref)):
         a, b = g.get(name), ref.get(name)
         if a is None:
